@@ -19,5 +19,6 @@ func init() {
 	alias("C01", "C01.11", "C12.5", "a connection's inbound ring comes from the pool: it must arrive empty or another connection's unread bytes are spliced into this stream")
 	alias("C02", "C02.13", "C12.5", "the outbound ring comes from the same pool")
 	alias("C18", "C18.9", "C12.4", "release() runs on every failure path: what it pools must not stay referenced by the dead connection, or the failure reaches other connections through the pool")
+	alias("C19", "C19.8", "C07.9", "a registration whose descriptor duplication failed must deliver that error, not a connection on descriptor -1")
 	alias("C10", "C10.6", "C09.6", "the ring half moves data with split copies")
 }
